@@ -115,8 +115,8 @@ class CssGen:
             return ' screen, PRINT', ["'screen", "'print"], True
         return ' 5px', 'none', False
 
-    def items(self, depth):
-        """-> (css text, wire list)"""
+    def items(self, depth, base=None):
+        """-> (css text, wire list); `base`: the URL relative references of this stylesheet resolve against."""
         texts, wires = [], []
         for _ in range(self.rng.choice([0, 1, 1, 2, 3, 4])):
             r = self.rng.random()
@@ -135,13 +135,22 @@ class CssGen:
                     wires.append(['import', 'none', mwire, ['sheet', 'notdict', []]])
                     continue
                 url = self.url()
+                written = url
+                if form > 0.8:          # a relative reference: resolved against the stylesheet's own (redirected) URL
+                    written = f'rel/s{next(self.counter)}.css'
+                    if not base:        # no base URL: "Relative URI reference without a base URI", rule skipped
+                        texts.append(f'@import "{written}"{mtext};')
+                        wires.append(['import', 'none', mwire, ['sheet', 'notdict', []]])
+                        self.nontrivial.add('import-unresolvable')
+                        continue
+                    url = urljoin(base, written)
                 sheet_wire = self.sheet(url, depth - 1, check_mime=False)
-                texts.append(f'@import url({url}){mtext};' if form < 0.55 else f'@import "{url}"{mtext};')
+                texts.append(f'@import url({written}){mtext};' if form < 0.55 else f'@import "{written}"{mtext};')
                 wires.append(['import', enc(url), mwire, sheet_wire])
                 self.nontrivial.add('import')
             elif r < 0.85 and depth > 0:
                 mtext, mwire, _ = self.media()
-                inner_text, inner_wire = self.items(depth - 1)
+                inner_text, inner_wire = self.items(depth - 1, base)
                 texts.append(f'@media{mtext or " all"}{{{inner_text}}}')
                 wires.append(['media', mwire if mtext else ["'all"], inner_wire])
             else:
@@ -158,11 +167,14 @@ class CssGen:
 
     def sheet(self, url, depth, check_mime):
         """Register what the fetcher serves for `url`; -> wire of the model's Sheet."""
-        text, wires = self.items(depth)
+        spec = R.random_spec(self.rng, ['css'], mimes=['text/css'] * 6 + ['text/html', None, 'TEXT/CSS'],
+                             redirects=[None] * 5 + [f'http://moved.test/d{next(self.counter)}/s.css'])
+        # CSS.__init__: base_url = result.get('redirected_url', url)
+        own = spec.redirected if (spec.kind == 'resp' and spec.redirected) else url
+        text, wires = self.items(depth, own)
         data = text.encode()
         content = R.Content(1000 + next(self.counter), 'css', data)
         content.xml_ok, content.pil, content.woff, content.woff_ok, content.font_ok = False, None, False, True, False
-        spec = R.random_spec(self.rng, ['css'], mimes=['text/css'] * 6 + ['text/html', None, 'TEXT/CSS'])
         if spec.kind == 'resp':
             spec.content = content
             if spec.mime != 'text/css' or not spec.has_mime:
@@ -185,7 +197,7 @@ def matcher_rules(css):
 class C20(PropCheck):
     id = 'C20'
     extractors = (fetch_sites.generate,)
-    modules = ('WpModel.Props.C20', 'WpModel.Witness.C20')
+    modules = ('WpModel.Props.C20', 'WpModel.Props.C20Url', 'WpModel.Props.C20Trace', 'WpModel.Props.C20Absent', 'WpModel.Witness.C20')
     trusted_base = (
         'modelled, not verified: urls.fetch, images.get_image_from_uri / RasterImage.__init__ (data source), '
         'html.handle_img/embed/object, css find_stylesheets + @import/@media/@font-face branches of preprocess_stylesheet, '
@@ -199,7 +211,8 @@ class C20(PropCheck):
         'URLs are ASCII; percent escapes below %80 only (iri_to_uri is then the identity, url2pathname = unquote)',
         'stylesheet responses carry no redirected_url (the base of a relative @import is then the stylesheet URL, resolved '
         'by urllib.urljoin, which is an oracle of the harness)',
-        'nested fetches made while an SVG image is drawn (<image>, external <use>) are not modelled',
+        'fetches made while an SVG image is drawn are modelled one level deep (<image>, external <use>); an SVG image '
+        'referenced from inside an SVG image is a leaf (its own references are not followed: see finding svg-self-reference-hang)',
         'RasterImage.__init__ does not raise on data Pillow can open (ImageFile.LOAD_TRUNCATED_IMAGES)',
         'the fetcher returns None or a dict; file objects implement read() and close()',
     )
@@ -208,8 +221,11 @@ class C20(PropCheck):
     def correspondence(self, run):
         docs.quiet()
         R.bank()
+        R.RECORDERS.clear()
+        store = self.capture_lines(run)
         self.sec_fetch(run)
         self.sec_urls(run)
+        self.sec_url_resolution(run)
         self.sec_raster(run)
         self.sec_images(run)
         self.sec_handle(run)
@@ -217,6 +233,99 @@ class C20(PropCheck):
         self.sec_fonts(run)
         self.sec_attachments(run)
         c20_doc.section(run)
+        self.sec_traces(run)
+        self.branch_histogram(run, store)
+
+    # model branches taken by the generated cases -------------------------------------------------
+    TAG_CAP = 4000
+    MODEL_BRANCHES = (
+        [f'fetch:{a}/{b}' for a in ('fetcher-raises', 'not-a-dict', 'string', 'string+file-obj', 'no-string-no-file', 'read-error',
+                                     'file-obj-close-fails', 'file-obj') for b in ('body-returns', 'body-raises')] +
+        ['img:cache-hit-image', 'img:cache-hit-failure', 'img:fetcher-raises', 'img:not-a-dict-escapes',
+         'img:read-error-escapes', 'img:no-string-no-file-escapes', 'img:svg-by-mime', 'img:error-svg-mime',
+         'img:svg-last-chance', 'img:error-undecodable', 'img:raster-JPEG-original-bytes', 'img:raster-JPEG-reencoded',
+         'img:raster-JPEG-lazy-local', 'img:raster-PNG-original-bytes', 'img:raster-PNG-reencoded', 'img:raster-PNG-lazy-local'] +
+        ['font:exhausted-warning', 'font:broken-url', 'font:internal', 'font:local-name-mismatch', 'font:url-fetch-fails',
+         'font:local-fetch-fails', 'font:woff-decode-fails', 'font:url-fetch-installed', 'font:local-fetch-installed',
+         'font:fontconfig-rejects', 'font:already-loaded'] +
+        ['css:rule', 'css:other-at-rule', 'css:import-too-late', 'css:import-no-url', 'css:import-invalid-media',
+         'css:import-media-mismatch', 'css:import-escapes', 'css:import-fetch-error-logged', 'css:import-loaded',
+         'css:media-invalid', 'css:media-mismatch', 'css:media-entered', 'css:font-face', 'css:font-face-incomplete',
+         'sheet:fetcher-raises', 'sheet:not-a-dict', 'sheet:string', 'sheet:string+file-obj', 'sheet:no-string-no-file',
+         'sheet:read-error', 'sheet:file-obj-close-fails', 'sheet:file-obj', 'sheet:wrong-mime-empty',
+         'el:type-not-css', 'el:media-mismatch', 'el:style', 'el:link-no-href', 'el:link-rel-skipped',
+         'el:link-unresolvable', 'el:link-fetched'] +
+        [f'attachment:{a}' for a in ('fetcher-raises', 'not-a-dict', 'string', 'string+file-obj', 'no-string-no-file',
+                                     'read-error', 'file-obj-close-fails', 'file-obj')] +
+        ['join:no-base', 'join:empty-reference', 'join:other-scheme', 'join:non-hierarchical-scheme', 'join:has-authority',
+         'join:fragment-only', 'join:query-only', 'join:absolute-path', 'join:merge-with-dotdot', 'join:merge'] +
+        ['doc:render-completes', 'doc:render-escapes', 'doc:write-completes', 'doc:write-local-file-missing',
+         'doc:write-escapes', 'doc:local-file-read', 'svg:external-use-direct-call', 'svg:image-loaded', 'svg:image-none',
+         'svg:image-escapes-swallowed', 'svg:image-no-href-none'])
+    # font:local-no-match cannot be produced: FcFontMatch always returns the closest font (the harness passes found=true)
+    # img:read-error-caught-class: a read() raising URLFetchingError / ImageLoadingError itself (generated rarely)
+
+    @staticmethod
+    def capture_lines(run):
+        """Keep (up to a cap) the protocol lines of every section, to ask the driver afterwards which model branches they took."""
+        store = {}
+        original = run.section
+
+        def section(name, rule):
+            sec = original(name, rule)
+            add = sec.add
+            kept = store.setdefault(name, [])
+
+            def recording_add(line, *args, **kwargs):
+                if len(kept) < C20.TAG_CAP:
+                    kept.append(line)
+                return add(line, *args, **kwargs)
+            sec.add = recording_add
+            return sec
+        run.section = section
+        return store
+
+    def branch_histogram(self, run, store):
+        """`tags <line>` through the driver: the branch of the *model* each case takes; histogram per section in the
+        evidence (`model:` tags) and the list of model branches no case of this run reached."""
+        import collections
+        from vlib import lean
+        hit = collections.Counter()
+        commands = ('fetch', 'images', 'fonts', 'css', 'sheet', 'attach', 'urljoin', 'doc')
+        by_name = {sec.name: sec for sec in run.sections}
+        for name, lines in store.items():
+            wanted = [line for line in lines if line.split(' ', 1)[0] in commands]
+            if not wanted:
+                continue
+            outs = lean.run_driver(self.driver, ['tags ' + line for line in wanted])
+            for out in outs:
+                for tag in out.split():
+                    hit[tag] += 1
+                    by_name[name].tags['model:' + tag] += 1
+        run.extra['model_branches_hit'] = dict(hit.most_common())
+        run.extra['model_branches_never_hit'] = sorted(set(self.MODEL_BRANCHES) - set(hit))
+        run.extra['model_branches_unlisted'] = sorted(set(hit) - set(self.MODEL_BRANCHES) - {'bad-op'})
+
+    # the verified trace checker on every recorded log --------------------------------------------
+    def sec_traces(self, run):
+        sec = run.section('trace-checker', 'every log recorded by a recording fetcher in this run (all sections, both variants of '
+                          'each document) through the Lean checkers traceOk / obsOk (each fetch is call [body [close]]; the file '
+                          'object is closed exactly once before the next call) and callsWithin (document runs: every URL handed '
+                          'to the fetcher is named by the document); the checkers are proved to accept every model trace '
+                          '(Props/C20Trace.lean); non-trivial = at least two events')
+        for recorder in R.RECORDERS:
+            events = recorder.whole_log()
+            if not events:
+                continue
+            wire = [['call', e[5:]] if e.startswith('call=') else e for e in events]
+            named = 'any'
+            if recorder.check_named:
+                named = [enc(u) for u in list(recorder.table) + recorder.extra_named]
+            mode = 'full' if 'body' in events else 'obs'
+            sec.add(sx.line('trace', mode, wire, named), 'shape=true within=true',
+                    meta={'events': events, 'named': None if named == 'any' else list(recorder.table)},
+                    nontrivial=len(events) > 1, tags=[mode, 'named' if recorder.check_named else 'shape-only'])
+        R.RECORDERS.clear()
 
     # urls.fetch ------------------------------------------------------------------------------
     def sec_fetch(self, run):
@@ -265,7 +374,7 @@ class C20(PropCheck):
         sec = run.section('url-parts', 'urlparse(url).scheme / url2pathname(urlparse(url).path) / url_is_absolute on generated '
                           'ASCII URLs; non-trivial = contains a colon')
         alphabet = ['a', 'b', 'Z', '1', '+', '-', '.', ':', ':', '/', '/', '?', '#', 'file', 'http', 'FILE', '_', '@', '%', '%2',
-                    '%20', '%7e', '%4A', '%g1']
+                    '%20', '%7e', '%4A', '%g1', '%C3%A9', '%E6%97%A5', '%F0%9F%98%80']
         fixed = ['file:///tmp/x.png', 'file:/tmp/x.png', 'file:tmp/x.png', 'file://host/x?y#z', 'http://a/b#c?d',
                  'a:b', 'a1:b', '1a:b', ':x', 'x', '', 'file:', 'file://', 'data:image/png;base64,AAAA', 'f-i.l+e:/x',
                  'file:///a/b?c', 'file:///a#b', 'FiLe:///A/B', 'fi_le:///x', 'a://b', 'ab://b/c/d.e']
@@ -273,14 +382,79 @@ class C20(PropCheck):
                          for _ in range(run.n(600, 8000))]
         import re
         for url in cases:
-            if re.search('%[89a-fA-F][0-9a-fA-F]', url):
-                continue    # non-ASCII escapes are UTF-8 decoded by unquote: outside the model (assumption)
+            if re.search('%[89a-fA-F][0-9a-fA-F]', url.replace('%C3%A9', '').replace('%E6%97%A5', '').replace('%F0%9F%98%80', '')):
+                continue    # ill-formed UTF-8 escapes: Python's errors='replace' grouping is outside the model (assumption)
             parsed = urlparse(url)
             sec.add(sx.line('url', 'scheme', enc(url)), enc(parsed.scheme), meta={'url': url}, nontrivial=':' in url)
             sec.add(sx.line('url', 'path', enc(url)), enc(url2pathname(parsed.path)), meta={'url': url},
                     nontrivial=':' in url)
             sec.add(sx.line('url', 'abs', enc(url)), str(url_is_absolute(url)).lower(), meta={'url': url},
                     nontrivial=':' in url)
+
+    # urljoin / iri_to_uri / url_join / get_url_attribute / _find_base_url ------------------------
+    @staticmethod
+    def gen_url(rng, relative_bias=0.5):
+        """A URL or relative reference from a small grammar (no `[` `]`: IPv6 literals are outside the model)."""
+        seg = lambda: rng.choice(['a', 'b', 'dir', '.', '..', '', 'x.png', 'a b', 'c;p=1', 'é', '%41', 'q~', "it's", '日本', '😀'])  # noqa: E731
+        path = '/'.join(seg() for _ in range(rng.randrange(0, 5)))
+        query = rng.choice(['', '', '', '?', '?k=v', '?a=1&b=2', '?q;x'])
+        fragment = rng.choice(['', '', '', '#', '#frag', '#a/b'])
+        r = rng.random()
+        if r < relative_bias:
+            lead = rng.choice(['', '', '', '/', '//other.test/', './', '../', '../../', ';p', '?only', '#only'])
+            url = lead + path + query + fragment
+        else:
+            scheme = rng.choice(['http', 'https', 'file', 'HTTP', 'ftp', 'data', 'mailto', 'x-foo', 'svn+ssh', 'h', 'ws'])
+            netloc = rng.choice(['//a.test', '//a.test:80', '//u@a.test', '//', '', '/', '//A.TEST'])
+            url = f'{scheme}:{netloc}{"/" if path and netloc and rng.random() < 0.8 else ""}{path}{query}{fragment}'
+        if rng.random() < 0.06:
+            url = rng.choice([' ', '\t', '\x01', '\n']) + url
+        if rng.random() < 0.04:
+            i = rng.randrange(len(url) + 1)
+            url = url[:i] + rng.choice(['\t', '\n', '\r', ' ']) + url[i:]
+        return url
+
+    def sec_url_resolution(self, run):
+        from urllib.parse import urljoin as real_urljoin
+        from weasyprint import _find_base_url
+        from weasyprint.urls import get_url_attribute, iri_to_uri
+        sec = run.section('url-resolution', 'urllib.parse.urljoin / urlparse, iri_to_uri, get_url_attribute (url_join) and '
+                          '_find_base_url on generated base / reference pairs (schemes, authorities, dot segments, params, '
+                          'queries, fragments, control characters, non-ASCII); non-trivial = the reference is relative')
+        fixed = [('http://a/b/c/d;p?q', r) for r in (
+            'g:h', 'g', './g', 'g/', '/g', '//g', '?y', 'g?y', '#s', 'g#s', 'g?y#s', ';x', 'g;x', 'g;x?y#s', '', '.', './',
+            '..', '../', '../g', '../..', '../../', '../../g', '../../../g', '../../../../g', '/./g', '/../g', 'g.', '.g',
+            'g..', '..g', './../g', './g/.', 'g/./h', 'g/../h', 'g;x=1/./y', 'g;x=1/../y', 'g?y/./x', 'g#s/./x', 'http:g')]
+        pairs = fixed + [('', self.gen_url(run.rng)) for _ in range(30)] + [(self.gen_url(run.rng, 0.1), '') for _ in range(30)]
+        pairs += [(self.gen_url(run.rng, 0.15), self.gen_url(run.rng, 0.7)) for _ in range(run.n(1500, 20000))]
+        for base, ref in pairs:
+            relative = ':' not in ref.split('/')[0]
+            sec.add(sx.line('urljoin', enc(base), enc(ref)), enc(outcome_class(lambda: real_urljoin(base, ref))),
+                    meta={'base': base, 'ref': ref}, nontrivial=relative, tags=['join-relative' if relative else 'join-absolute'])
+            parsed = urlparse(ref)
+            sec.add(sx.line('urlparse', enc(ref)), ' '.join(enc(x) for x in parsed), meta={'ref': ref}, nontrivial=relative,
+                    tags=['parse'])
+            sec.add(sx.line('iri', enc(ref)), enc(outcome_class(lambda: iri_to_uri(ref))), meta={'ref': ref},
+                    nontrivial=any(ord(c) > 127 or c in ' "<>' for c in ref), tags=['iri'])
+            attr = run.rng.choice([ref, ref, f' {ref} ', f'\n{ref}\t', None, '', '   '])
+            doc_base = run.rng.choice([base, base, None, ''])
+            allow = run.rng.random() < 0.5
+            element = ElementTreeElement('a', {} if attr is None else {'href': attr})
+            sec.add(sx.line('urlattr', enc(attr), enc(doc_base), allow),
+                    enc(outcome_class(lambda: get_url_attribute(element, 'href', doc_base, allow))),
+                    meta={'attr': attr, 'base': doc_base, 'allow': allow}, nontrivial=relative,
+                    tags=['attr-allow-relative' if allow else 'attr-strict'])
+            html = ElementTreeElement('html', {})
+            href = run.rng.choice([ref, f' {ref}', None, '', ' '])
+            if run.rng.random() < 0.8:
+                from xml.etree import ElementTree
+                ElementTree.SubElement(html, 'base', {} if href is None else {'href': href})
+                shown = href
+            else:
+                shown = None
+            sec.add(sx.line('findbase', enc(shown), enc(doc_base)),
+                    enc(outcome_class(lambda: _find_base_url(html, doc_base))),
+                    meta={'href': shown, 'base': doc_base}, nontrivial=shown is not None, tags=['find-base'])
 
     # RasterImage.__init__ -------------------------------------------------------------------
     def sec_raster(self, run):
@@ -471,7 +645,7 @@ class C20(PropCheck):
             if media_attr is not None:
                 attrs += f' media="{media_attr}"'
             if rng.random() < 0.4:
-                text, wires = gen.items(2)
+                text, wires = gen.items(2, base)
                 head.append(f'<style{attrs}>{text}</style>')
                 els.append(['el', False, enc(type_attr), enc(media_attr), 'none', 'none', 'none', wires,
                             ['sheet', 'notdict', []]])
@@ -637,6 +811,14 @@ class C20(PropCheck):
     def judge(self, d):
         """Does the implementation's output on this input violate a clause of C20 itself?"""
         sec, impl, meta = d['section'], d['impl'], d.get('meta') or {}
+        if sec not in ('fetch', 'url-resolution', 'url-parts', 'trace-checker'):
+            # "… by calling the url_fetcher with the absolute URL": whatever the section, a relative URL handed to the fetcher
+            import re
+            from weasyprint.urls import url_is_absolute
+            for match in re.finditer(r"call=('[^,\]\s]*)", impl):
+                called = c20_doc.decode(match.group(1))
+                if called != 'None' and not url_is_absolute(called):
+                    return f'the fetcher was called with {called!r}, which is not an absolute URL'
         if sec == 'fetch':
             spec = meta['spec']
             events, _, outcome = impl.partition(' ')
@@ -676,6 +858,12 @@ class C20(PropCheck):
             for part in impl.split(' | '):
                 if 'err:' in part:
                     return f'add_font_face raised {part.split(" ")[-1]} (a src entry that fails must be skipped)'
+            for real, model in zip(impl.split(' | '), d['model'].split(' | ')):
+                if 'installed=none' in real and 'installed=none' not in model:
+                    return ('a correctly served font of the src list was not installed: after a failing entry the following '
+                            f'entries must be tried (implementation: {real}; expected: {model})')
+                if 'installed=none' not in real and 'installed=none' in model and ' ok' in real:
+                    return f'a font was installed although no src entry delivers a usable font ({real})'
             return None
         if sec == 'attachments' and 'spec' in meta:
             spec = meta['spec']
@@ -697,6 +885,13 @@ class C20(PropCheck):
             return None
         if sec == 'documents':
             return self.judge_document(meta, impl)
+        if sec == 'trace-checker':
+            if 'shape=false' in d['model']:
+                return ('the recorded fetch trace is not a sequence of `call [close]` fetches (a file object closed twice, '
+                        f'never opened, or closed after the next call): {meta["events"][:12]}')
+            if 'within=false' in d['model']:
+                return ('the fetcher was called with a URL that the document does not name (not the absolute URL of a '
+                        f'reference): {[e for e in meta["events"] if e.startswith("call=")][:8]}')
         return None
 
     @staticmethod
@@ -728,12 +923,18 @@ class C20(PropCheck):
 
     @staticmethod
     def judge_document(meta, impl):
+        if 'HarnessTimeout' in impl:
+            return (f'render / write_pdf did not finish within {c20_doc.CASE_SECONDS} s on a document of a few elements '
+                    f'({impl.split("render=")[1].split(" ")[0]})')
         if 'STRAY-FETCH' in impl:
             return 'a resource was fetched outside the stage of its kind: ' + impl.split('STRAY-FETCH=')[1][:200]
         if 'NETWORK' in impl:
             return 'network access behind the fetcher: ' + impl.split('NETWORK=')[1][:200]
         if 'absent=DIFF' in impl:
             return 'the result differs from the result of the document without the failed references'
+        if meta.get('svg_only_escapes') and ' render=ok' in impl and ' write=err:' in impl and 'FileNotFoundError' not in impl:
+            return ('write_pdf raised ' + impl.split(' write=err:')[1].split(' ')[0] + ' because a resource referenced from '
+                    'inside an SVG image could not be read: drawing an SVG must absorb the failures of its references')
         if meta.get('plain'):
             for stage in ('render', 'write'):
                 marker = f' {stage}=err:'
@@ -873,24 +1074,32 @@ PROP = C20()
 
 MANIFEST = {
     'design_ref': 'DESIGN.md §4 C20',
-    'technique': 'Lean 4 theorems over a control-flow model of the fetch funnel and of every loader (images, stylesheets, '
-                 '@import, @font-face, attachments) and of their composition in render / write_pdf; executable correspondence '
-                 'with the real functions under a recording memory fetcher with every failure mode; a whitelist fact over the '
-                 'open()/read_bytes()/urlopen()/fetch() call sites regenerated from the source by an AST scan; document-level '
-                 'runs under sys.addaudithook compared with the model and with the reference-free document',
+    'technique': 'Lean 4 theorems over a control-flow model of the fetch funnel, of URL resolution (urljoin, iri_to_uri, url_join, '
+                 'get_url_attribute, <base>), of every loader (images, stylesheets, @import, @font-face, attachments, SVG <image> / '
+                 '<use>) and of their composition in render / write_pdf; a verified trace checker (proved to accept every model '
+                 'trace) run on every log recorded from the real code; executable correspondence with the real functions under a '
+                 'recording memory fetcher with every failure mode, including a complete resource-kind x failure-kind matrix of '
+                 'documents; a whitelist fact over the open()/read_bytes()/urlopen()/fetch() call sites regenerated from the source '
+                 'by an AST scan; document-level runs under sys.addaudithook compared with the model and with the reference-free '
+                 'document',
     'text': 'Proved for all inputs on the model: any fetcher exception becomes URLFetchingError, the fetcher is called once and '
-            'a file object is closed exactly once on every path; get_image_from_uri returns an image or None for every fetch '
-            'outcome that fails at the fetcher or delivers bytes (any bytes), caches failures, fetches each (URL, orientation) '
-            'at most once and depends on the fetcher only at the requested URL; find_stylesheets / @import / add_font_face / '
-            'write_pdf_attachment never raise under the same hypothesis (add_font_face under none); a failing <img>, <embed>, <object>, <link>, @import, '
-            'font src entry or attachment leaves exactly what the document without it leaves; the whole pipeline (render + '
-            'write_pdf) completes and opens no local file on every document whose fetches are absorbed; the bytes embedded at '
-            'write time are the fetcher\'s unless the reported location is a file: URL. Call sites that open files, URLs or '
-            'sockets, and call sites of the fetcher, are regenerated from the source each run and checked against whitelists.',
+            'a file object is closed exactly once on every path; every trace of every loader and of the whole document is a '
+            'sequence of call [body [close]] fetches and only asks for URLs the document names; the URL handed to the fetcher is '
+            'absolute and ASCII (iri_to_uri idempotent, urljoin of a relative reference against a hierarchical base keeps the '
+            'base scheme); get_image_from_uri returns an image or None for every fetch outcome that fails at the fetcher or '
+            'delivers bytes (any bytes), caches failures, fetches each (URL, orientation) at most once; find_stylesheets / @import '
+            '/ write_pdf_attachment never raise under the same hypothesis, add_font_face and SVG drawing under none; a failing '
+            '<img>, <embed>, <object>, CSS image, <link>, @import, font src entry or attachment leaves exactly what the document '
+            'without it leaves — for images through the shared cache, for every later reference; the whole pipeline completes and '
+            'opens no local file on every document whose fetches are absorbed; the bytes embedded at write time are the '
+            'fetcher\'s unless the reported location is a file: URL. Call sites that open files, URLs or sockets, and call sites '
+            'of the fetcher, are regenerated from the source each run and checked against whitelists.',
     'note': 'Partial: which files and sockets the process opens is runtime behaviour, observed by an audit hook on generated '
-            'documents only (nested SVG <image>/<use> fetches are not modelled). Theorems named _partial carry the hypothesis '
-            'that excludes three known findings, each with a Lean witness replayed on the implementation every run: '
-            'LazyLocalImage re-reads file: URLs at write time (F19); a file object whose read() raises escapes from image / '
-            'stylesheet / attachment loading; well-formed non-SVG XML is accepted as an image. Third-party parsers (Pillow, ElementTree, fontTools, fontconfig, tinycss2, '
-            'urllib) are parameters of the model.',
+            'documents only. Theorems named _partial carry the hypothesis that excludes known findings, each with a Lean witness '
+            'replayed on the implementation every run: LazyLocalImage re-reads file: URLs at write time (F19); a file object whose '
+            'read() raises escapes from image / stylesheet / attachment loading; well-formed non-SVG XML is accepted as an image; '
+            'an SVG <image> without href hands None to the fetcher; an external SVG <use> bypasses fetch() and never closes the '
+            'file object; an @import cycle ends in RecursionError; an SVG image that references itself twice never finishes '
+            'drawing. Third-party parsers (Pillow, ElementTree, fontTools, fontconfig, tinycss2) are parameters of the model; '
+            'urllib.parse.urljoin is modelled (ASCII authority without brackets).',
 }
